@@ -205,6 +205,10 @@ def C02(ctx):
                 raise ToolError("force-write workload incomplete: no attempt %s %s" % (kind, fl))
     if priv[("event", ("FORCE_WRITE",))] == 0 or len(attempts) != len(fw_receipts) or any(e["result"] == "not reached" for e in attempts):
         raise ToolError("force-write workload incomplete: %d attempts, %d receipts" % (len(attempts), len(fw_receipts)))
+    # the same from a blueprint that merely has the NAME of the privileged blueprint ("FungibleVault" in the test package)
+    fake = collections.Counter((e["kind"], "FORCE_WRITE" in e["flags"]) for e in attempts if e["package"] == "test" and e["blueprint"] == "FungibleVault")
+    if fake[("event", True)] == 0 or fake[("event", False)] == 0 or fake[("field", True)] == 0:
+        raise ToolError("force-write workload incomplete: attempts of the blueprint named FungibleVault in the test package missing")
     by_label = {e["label"]: e for e in fw_receipts}
     for kind in (0, 1, 2, 3):
         # the controls show that the writes / the event are real: they are in the succeeding transaction
@@ -293,7 +297,7 @@ def C02(ctx):
             if ok:
                 raise ToolError("binding self-test of TraceTxFailure: %s force-write accepted" % what)
     distinct = len({(e["class"], tuple(e["touched"]), json.dumps(e["events"]), e.get("reason", "")[:30]) for e in receipts})
-    return {"exhaustive": False, "privileged_attempts": {"%s %s" % (e["kind"], "|".join(e["flags"])): e["result"] for e in attempts}, "distinct_nontrivial": max(distinct, sweeps), "workload_transactions_swept": sweeps, "injected_executions": len(receipts),
+    return {"exhaustive": False, "privileged_attempts": {"%s/%s %s %s" % (e["package"], e["blueprint"], e["kind"], "|".join(e["flags"])): e["result"] for e in attempts}, "distinct_nontrivial": max(distinct, sweeps), "workload_transactions_swept": sweeps, "injected_executions": len(receipts),
             "receipt_classes": dict(classes),
             "touched_in_committed_failures": dict(collections.Counter(t for e in receipts if e["class"] == "CommitFailure" for t in e["touched"])),
             "events_in_committed_failures": dict(collections.Counter("%s@%s" % tuple(x) for e in receipts if e["class"] == "CommitFailure" for x in e["events"])),
@@ -305,7 +309,9 @@ def C02(ctx):
                     "injection point moves later). Always: a native test blueprint (not the fungible vault) tries to open its field, a "
                     "collection entry and an owned store's entry with MUTABLE | FORCE_WRITE, | UNMODIFIED_BASE, | both, and to emit an event with "
                     "FORCE_WRITE, writes if it is allowed to, and the transaction then fails (ASSERT_WORKTOP_CONTAINS) after lock_fee; controls "
-                    "without the flags (also in a succeeding transaction) and the legitimate lock_fee on an owned vault; the system's answer "
+                    "without the flags (also in a succeeding transaction), the legitimate lock_fee on an owned vault, and the event / substate "
+                    "attempts again from a blueprint NAMED FungibleVault in the test package (the privilege belongs to package AND name; "
+                    "another blueprint of the resource package cannot be made to emit with the flag from outside); the system's answer "
                     "(PrivilegedOpenOk: refused with InvalidLockFlags / ForceWriteEventFlagsNotAllowed) and the receipt are decided by "
                     "TraceTxFailure; distinct = distinct projected receipts"
                     % ("10 seeded manifests + every 3rd transaction of 2 scenarios and of the royalties scenario (and its royalty-paying one)" if q else "60 seeded manifests + every 4th transaction (and every royalty-paying one) of all scenarios at every protocol version",
